@@ -108,6 +108,7 @@ struct ArbTracker {
         Mac s = mac_at(d.buf + OFF_RSRC);
         if (op == W_DISCOVER) a.on_discover(s, sent_hello(d), d.internal_fault);
         else if (op == W_RESET) a.on_reset();
+        else if (op == W_QLT && be16(d.buf + OFF_SEQ) == 0) { /* a request that must be ignored: no state change */ }
         else if (op == W_EMIT || op == W_QUERY || op == W_QLT) a.on_command(s);
     }
 };
@@ -579,7 +580,8 @@ struct MonC08 : Monitor {
             bool avail = n.attr.icon_avail && !(gf & G_ICON);
             if (c.have) cands.push_back(c.data);
             if (avail) { cands.push_back(n.attr.icon); if (!c.have && !d.internal_fault) { c.have = true; c.data = n.attr.icon; } }
-            if (cands.empty() || d.internal_fault) cands.push_back(Bytes());
+            else cands.push_back(Bytes()); // the platform has no icon (any more): an implementation that does not cache reports it as unavailable
+            if (d.internal_fault) cands.push_back(Bytes());
             w.note("c08_icon_request");
         } else if (type == 0x11) {
             if (n.attr.fname_avail && !(gf & G_FNAME) && !d.alloc_fault_fired) cands.push_back(n.attr.fname); else { cands.push_back(Bytes()); if (n.attr.fname_avail && !(gf & G_FNAME)) cands.push_back(n.attr.fname); }
@@ -712,6 +714,10 @@ struct MonC11 : Monitor {
 // ---------------------------------------------------------------- C12: periodic Hello pacing
 struct MonC12 : Monitor {
     std::map<int, uint64_t> last;
+    // model-side clocks for the 30 s clause (never read back from the implementation): when the mapping session last saw traffic
+    // (frame level: any received frame; API level: mapping_reset_inactive_timeout) and when a session was last added
+    std::map<int, uint64_t> traffic_s, added_s;
+    std::map<int, bool> have_traffic;
     const char *prop() const override { return "C12"; }
     void check(World &w, int node, const std::vector<TxRec> &txs, const glue_view &after) {
         int n = 0;
@@ -719,6 +725,13 @@ struct MonC12 : Monitor {
             if (tx.channel != 1) continue;
             n++;
             w.note("c12_periodic_hello");
+            if (have_traffic[node]) {
+                uint64_t deadline = traffic_s[node] + 30; // the tick that runs at or after this second drops every session before it may send anything
+                bool readded = added_s.count(node) && added_s[node] + 1 >= deadline;
+                if (tx.t / 1000 >= deadline + 1 && !readded)
+                    w.violate("C12", "hello-after-inactivity", fmt("periodic Hello at t=%llu ms, %llu s after the mapping session last saw traffic (sessions must have been dropped after 30 s)", (unsigned long long)tx.t, (unsigned long long)(tx.t / 1000 - traffic_s[node])));
+                if (tx.t / 1000 >= traffic_s[node] + 25) w.note("c12_hello_late_in_session");
+            }
             if (!tx.in_tick) w.violate("C12", "outside-tick", "periodic Hello emitted outside the periodic tick");
             int live = 0, incomplete = 0;
             for (int i = 0; i < 16; i++) if (after.ent[i].valid) { live++; if (!after.ent[i].complete) incomplete++; }
@@ -733,9 +746,21 @@ struct MonC12 : Monitor {
         }
         if (n > 1) w.violate("C12", "hello-too-soon", "more than one periodic Hello in one tick");
     }
-    void on_delivery(World &w, Delivery &d) override { check(w, d.node, d.txs, d.after); }
+    void on_delivery(World &w, Delivery &d) override {
+        if (d.ran && w.nodes[d.node]->cfg.glue == GLUE_DARWIN) { // the documented flow re-arms the inactivity deadline on every frame
+            traffic_s[d.node] = d.t / 1000; have_traffic[d.node] = true;
+            if (d.buf[OFF_OP] == W_DISCOVER) added_s[d.node] = d.t / 1000;
+        }
+        check(w, d.node, d.txs, d.after);
+    }
+    void on_api(World &w, int, const Op &op, const glue_view &, const glue_view &, int64_t) override {
+        if (op.kind == OP_A_INACT) { traffic_s[0] = w.now / 1000; have_traffic[0] = true; }
+        if (op.kind == OP_A_TADD) added_s[0] = w.now / 1000;
+    }
     void on_tick(World &w, TickRec &t) override {
         check(w, t.node, t.txs, t.after);
+        // API level: once the deadline has fired it is disarmed until the next mapping_reset_inactive_timeout
+        if (w.plan.api_world && have_traffic[t.node] && t.t / 1000 >= traffic_s[t.node] + 31) have_traffic[t.node] = false;
         if (t.before.table_count > 0 && t.after.table_count == 0) w.note("c12_table_emptied_by_tick");
         if (t.before.enum_state == 2 && t.after.enum_state == 1) w.note("c12_wait_to_pausing");
         if (t.before.enum_state != 0 && t.after.enum_state == 0) w.note("c12_enum_to_quiescent");
